@@ -642,4 +642,107 @@ def unfoldedLayers (rs : Rat → Rat) : List MLayer → Option (List MLayer)
 /-- the layer at position `i` of a layer list (`toNet` reads the network through this) -/
 def opsOf (ls : List MLayer) (i : Nat) : LayerOp := (ls.map (·.op)).getD i .input
 
+/-! ### `convert_to_folded_model` on a DAG with ORDERED input lists (fix round Q)
+
+  The rewiring loop of `convert_to_folded_model` calls every surviving layer again on the tensors of
+  its parents.  A layer with several inputs (Add, Subtract, Concatenate, Dot, …) needs them in the
+  order of its own `layer.input`.  Since fix ff4bdc9 the code records, before any layer is called
+  again, the position of every edge's tensor in the input list of its consumer and feeds the inputs
+  in that order: `rewiredIns`.  Before the fix the order was the one of `graph.predecessors()`, i.e.
+  the order in which the edges were added to the networkx graph — at best the layer order for the
+  surviving edges, and the edges added by `GraphRemoveNode` for the removed batch norms always
+  LAST: `rewiredInsOld` (kept for the regression witness).
+
+  `OGraph` is the DAG with n-ary, ordered nodes and its own forward semantics (`OGraph.val`): a
+  `merge` gets the tensors of ALL its inputs in order, `f` is an arbitrary function of that list
+  (order-sensitive merges included). -/
+
+/-- a layer of the ordered DAG -/
+inductive NOp
+  | input
+  | conv (P : Plain)                 -- Conv2D / DepthwiseConv2D (or Q versions)
+  | bn (p : BN) (ch : Nat → Nat)     -- BatchNormalization
+  | folded (L : Folded)              -- QConv2DBatchnorm / QDepthwiseConv2DBatchnorm
+  | merge (f : List T → T)           -- any other layer: gets the tensors of its inputs IN ORDER
+
+/-- node `i` = `model.layers[i]`: class as the selection rule sees it, inbound layers in the order
+    of `layer.input`, and the layer itself -/
+structure ONode where
+  kind : Kind
+  ins : List Nat
+  op : NOp
+
+abbrev OGraph := List ONode
+
+def ONode.dead : ONode := ⟨.other, [], .input⟩
+
+/-- the qgraph of the model (what the selection rule reads) -/
+def OGraph.shape (g : OGraph) : Graph := g.map fun nd => ⟨nd.kind, nd.ins⟩
+
+def OGraph.node (g : OGraph) (k : Nat) : ONode := g.getD k ONode.dead
+
+/-- all inputs present -/
+def allSome : List (Option T) → Option (List T)
+  | [] => some []
+  | none :: _ => none
+  | some v :: r => (allSome r).map (v :: ·)
+
+/-- one layer applied to the ordered list of its input tensors (`none`: wrong arity / the layer
+    raises) -/
+def NOp.apply (rs : Rat → Rat) (x : T) : NOp → List T → Option T
+  | .input, _ => some x
+  | .conv P, [v] => some (P.call v)
+  | .bn p ch, [v] => some (p.infer rs ch v)
+  | .folded L, [v] => L.callInference rs noStats v
+  | .merge f, vs => some (f vs)
+  | _, _ => none
+
+/-- value of node `k` (inbound layers have smaller indices; anything else reads as missing) -/
+def OGraph.valF (rs : Rat → Rat) (x : T) (g : OGraph) : Nat → Nat → Option T
+  | 0, _ => none
+  | fuel + 1, k =>
+    (allSome ((g.node k).ins.map fun i => if i < k then OGraph.valF rs x g fuel i else none)).bind
+      ((g.node k).op.apply rs x)
+
+def OGraph.val (rs : Rat → Rat) (x : T) (g : OGraph) (k : Nat) : Option T := g.valF rs x (k + 1) k
+
+/-- `GraphRemoveNode(bn)`: `u -> bn -> w` becomes `u -> w`; a consumer of a removed
+    BatchNormalization reads the layer in front of it -/
+def redirect (g : Graph) (p : Nat) : Nat :=
+  if (bnToDelete g).contains p then (g.getD p ⟨.other, []⟩).preds.getD 0 p else p
+
+/-- the inputs of a layer of the returned model, REPAIRED code (fix ff4bdc9): every input keeps its
+    position in the consumer's input list -/
+def rewiredIns (g : Graph) (ins : List Nat) : List Nat := ins.map (redirect g)
+
+/-- BEFORE the fix (`graph.predecessors()` order): the surviving edges first, the edges added for
+    the removed batch norms last, in the order of removal -/
+def rewiredInsOld (g : Graph) (ins : List Nat) : List Nat :=
+  ins.filter (fun p => !(bnToDelete g).contains p) ++
+    ((bnToDelete g).filter fun p => ins.contains p).map (redirect g)
+
+/-- AS CODED: the surviving layers re-called on the rewired inputs; the removed batch norms stay in
+    the list as dead nodes (nothing reads them; `keptLayers` lists the layers of the returned model) -/
+def OGraph.rewire (g : OGraph) : OGraph :=
+  (List.range g.length).map fun k =>
+    { g.node k with ins := rewiredIns g.shape (g.node k).ins }
+
+/-- the conversion with the parameters carried over (the folded layer of a site holds the conv
+    weights and the parameters of the removed batch norm — what `model_quantize(enable_bn_folding)`
+    builds once the parameters are transferred): same rewiring, site conv ↦ folded layer -/
+def OGraph.convert (g : OGraph) (mode : FoldMode) : OGraph :=
+  (List.range g.length).map fun k =>
+    let nd := g.node k
+    let ins' := rewiredIns g.shape nd.ins
+    match foldSite g.shape k, nd.op with
+    | some j, .conv P =>
+      match (g.node j).op with
+      | .bn p _ => ⟨.other, ins', .folded (foldLayer P p mode)⟩
+      | _ => ⟨nd.kind, ins', nd.op⟩
+    | _, _ => ⟨nd.kind, ins', nd.op⟩
+
+/-- the source node whose tensor node `k` of the converted model carries: a folded site carries the
+    output of its batch norm -/
+def carrier (g : Graph) (k : Nat) : Nat := (foldSite g k).getD k
+
 end QKV.Fold
